@@ -315,6 +315,47 @@ def prog_intlen(w, rng):
 ERR_KINDS = ["index-get", "index-set", "array-length", "string-too-long", "item-too-large", "struct-other-shape", "union-non-member", "wrong-context", "offset-without-buffer"]
 
 
+def prog_bylen(w, rng):
+    """C03 / C01 / C05: arrays built BY LENGTH (the dimensions form), systematically: every length 0, 1, 2 x item kind (scalar, static
+    struct, static array of scalars) x 1-D / 2-D with one dynamic dimension x stand-alone in a hole between live neighbours / as the
+    LAST dynamic field of a struct.  The reserved extent of a length-0 array is its header only: nothing may be written behind it"""
+    i = w.index
+    ext = i % 3
+    itk = (i // 3) % 3
+    nd = 1 + (i // 9) % 2
+    infield = (i // 18) % 2 == 1
+    leaf = X.sc(rng.choice(["Int8", "Int16", "Float32", "Float64", "UInt64"]))
+    it = [leaf, X.struct(X.sc("Int16"), X.sc("Float64"), X.arr(X.sc("UInt8"), [3])), X.arr(X.sc(rng.choice(["Float64", "Int32", "Int8"])), [rng.choice([2, 3])])][itk]
+    sh = [-1] if nd == 1 else rng.choice([[-1, 2], [3, -1]])
+    atx = dict(X.arr(it, [2] * nd), sh=sh, ord=list(range(nd)))
+    tx = X.struct(X.sc("Int32"), X.arr(X.sc("Int16"), [-1]), atx) if infield else atx
+    b = rng.randrange(2)
+    # a hole of used memory exactly in front of a live object: the new array (placed first-fit) lands in it when it fits
+    buf = w.bufs[b]
+    try:
+        hsize = rng.choice([16, 24, 40, 64])
+        hoff = int(buf.allocate(hsize, align=False))
+        buf.update_from_buffer(hoff, bytes([0x6B]) * hsize)
+    except Exception:       # noqa
+        return
+    w.record("noise", reads=False)
+    if w.new(pick_type(rng, False), b, placement="packed") is None:
+        return
+    buf.free(hoff, hsize)
+    w.prog.append(f"hole b={b} {hoff}+{hsize}")
+    w.record("noise", reads=False)
+    w.force_ext, w.capacity_p = ext, 0
+    try:
+        k = w.new(tx, b, placement=rng.choice(["packed", "default"]), dims_p=1.0, np_forms=False, allow=("null",))
+    finally:
+        w.force_ext = None
+    if k is None:
+        return
+    for _ in range(rng.randint(0, 2)):
+        if w.set(rng.choice(list(w.handles)), allow=("null",)) is False and w.steps[-1].get("exc"):
+            return
+
+
 def prog_err(w, rng):
     """C11: objects with live neighbours, then operations that cannot be honoured (each must raise and change no value)"""
     w.capacity_p = 0.4          # strings whose capacity was given explicitly (not a multiple of 8) are where "fits" is subtle
@@ -578,12 +619,12 @@ def prog_update(w, rng):
 
 
 PROGRAMS = {
-    "C01": lambda w, rng: (prog_defaults if rng.random() < 0.08 else prog_repeat if rng.random() < 0.2 else prog_construct)(w, rng),
+    "C01": lambda w, rng: (prog_bylen if rng.random() < 0.04 else prog_defaults if rng.random() < 0.08 else prog_repeat if rng.random() < 0.2 else prog_construct)(w, rng),
     # copy-construction writes objects too; so do assignments - and an assignment that must be refused but is carried out may leave bytes
     # that are no longer an object of the format (a text without room for its NUL): the fmt:/decode: clauses of set and err steps are C05's
     "C05": lambda w, rng: (prog_defaults if rng.random() < 0.08 else prog_err if rng.random() < 0.1 else prog_set if rng.random() < 0.15
                            else prog_construct if rng.random() < 0.6 else prog_copy)(w, rng),
-    "C03": lambda w, rng: (prog_intlen if rng.random() < 0.06 else prog_err if rng.random() < 0.1 else prog_copy if rng.random() < 0.3 else (prog_construct if rng.random() < 0.4 else prog_set))(w, rng),
+    "C03": lambda w, rng: (prog_bylen if rng.random() < 0.07 else prog_intlen if rng.random() < 0.06 else prog_err if rng.random() < 0.1 else prog_copy if rng.random() < 0.3 else (prog_construct if rng.random() < 0.4 else prog_set))(w, rng),
     "C06": lambda w, rng: (prog_construct if rng.random() < 0.2 else (prog_view_copy if rng.random() < 0.2 else (prog_update if rng.random() < 0.2 else (prog_set if rng.random() < 0.6 else prog_copy))))(w, rng),
     "C10": lambda w, rng: (prog_update if rng.random() < 0.1 else prog_set)(w, rng),
     "C08": lambda w, rng: (prog_repeat if rng.random() < 0.15 else (prog_copy if rng.random() < 0.15 else prog_refs))(w, rng),
